@@ -354,3 +354,50 @@ func scenarioMissingEntries(r *Rng) *project {
 	}
 	return p
 }
+
+// Several entry points reach the same independent leaf modules through
+// different intermediate files: the leaves end up side by side in shared
+// chunks (equal distance from the entry points, no import relation among
+// them) and their arrival-order source indices depend on which intermediate
+// file finished loading first.  Their relative order in the output must come
+// from the stable (DFS) index only.
+func scenarioSiblings(r *Rng) *project {
+	p := &project{Kind: "shared-chunk-siblings", Files: map[string]string{}}
+	nLeaves := r.Range(5, 9)
+	nEntries := r.Range(2, 3)
+	nParents := r.Range(2, 4)
+	for l := 0; l < nLeaves; l++ {
+		p.Files[fmt.Sprintf("src/leaf%d.js", l)] = fmt.Sprintf(
+			"function helper(x) { return x + %d }\nexport const value%d = helper(%d);\nexport const obj%d = { _foo_: %d, _leaf%d_: 1 };\nconsole.log('leaf%d', value%d);\n", l, l, l, l, l, l, l, l)
+		p.Files[fmt.Sprintf("src/leaf%d.css", l)] = fmt.Sprintf(".leaf%d { color: rgb(%d, 0, 0) }\n", l, l)
+	}
+	for e := 0; e < nEntries; e++ {
+		var esb strings.Builder
+		for k := 0; k < nParents; k++ {
+			name := fmt.Sprintf("src/e%dparent%d.js", e, k)
+			var sb strings.Builder
+			var uses []string
+			for _, l := range randPerm(r, nLeaves) {
+				if r.Chance(70) {
+					fmt.Fprintf(&sb, "import { value%d, obj%d } from './leaf%d.js';\n", l, l, l)
+					uses = append(uses, fmt.Sprintf("value%d", l), fmt.Sprintf("obj%d._foo_", l))
+					if r.Chance(50) {
+						fmt.Fprintf(&sb, "import './leaf%d.css';\n", l)
+					}
+				}
+			}
+			fmt.Fprintf(&sb, "export const parent%d = [%s];\n", k, strings.Join(uses, ", "))
+			p.Files[name] = sb.String()
+			fmt.Fprintf(&esb, "import { parent%d } from './e%dparent%d.js';\n", k, e, k)
+		}
+		fmt.Fprintf(&esb, "console.log('entry%d'", e)
+		for k := 0; k < nParents; k++ {
+			fmt.Fprintf(&esb, ", parent%d", k)
+		}
+		esb.WriteString(");\n")
+		name := fmt.Sprintf("src/entry%d.js", e)
+		p.Files[name] = esb.String()
+		p.Entries = append(p.Entries, name)
+	}
+	return p
+}
